@@ -258,6 +258,19 @@ fn fit_twin_case<T: Sc>(rng: &mut Rng, case: u64, out: &mut CaseOut) {
     } else if ok_a != ok_b {
         out.inconcl("one twin converged and the other did not (no per-step disagreement found)");
     }
+    // the fit result of the weighted problem reports the *unweighted* model as its best fit (weights
+    // must not leak into it), for one and for many right-hand sides
+    if let Ok(a3) = build_problem::<T>(&spec, &SpyCtl::new()) {
+        let fit = a3.fit(&lm);
+        if fit.is_ok() {
+            out.count("best_fit_of_weighted_fits_checked");
+            let before = out.violations.len();
+            crate::props::c02::check_best_fit::<T>(out, stream, case, &spec, &fit);
+            if out.violations.len() > before {
+                return;
+            }
+        }
+    }
     // statistics twins: reduced chi2 and covariance (not the confidence band, which uses the unweighted Jacobian by definition)
     if !spec.mrhs && dof_ok {
         let (Ok(a2), Ok(b2)) = (build_problem::<T>(&spec, &SpyCtl::new()), build_problem::<T>(&bspec, &SpyCtl::new())) else { return };
